@@ -180,7 +180,8 @@ def validPair (s : Sec) : Bool :=
 /-- finding signature of an accepted request whose pair is not enabled (decidable on the case) -/
 def classify (srv : SrvCfg) (s : Sec) : String :=
   if srv.enabled.contains s then "enabled"
-  else if s.policy == policyNone then "C30.accept-none-not-enabled"
+  else if s.policy == policyNone && s.mode == modeNone then "C30.accept-none-not-enabled"
+  else if s.policy == policyNone then "C30.accept-none-policy-with-mode"   -- no such channel is opened (C30_guarantees)
   else if s.mode == modeNone then "C30.accept-secure-policy-mode-none"
   else if s.mode != modeSign && s.mode != modeSignAndEncrypt then "C30.accept-invalid-mode"
   else if srv.enabled.any (fun e => e.policy == s.policy) then "C30.accept-mode-not-enabled"
